@@ -132,7 +132,7 @@ scenarios:
   - name: shop
     requests: [cart_add, hdr, use]
   - name: shop_cart
-    requests: [add]
+    requests: [add, hdr]
 `
 
 func (c Cell) yaml() string {
@@ -496,8 +496,8 @@ func (r *run) checkNames() error {
 		l := seq[k]
 		switch name {
 		case "shop_cart":
-			if len(l) != 1 {
-				return fmt.Errorf("ORDER: a shot of scenario shop_cart [add] sent %d requests", len(l))
+			if len(l) != 2 || l[1].URI != "/hdr" {
+				return fmt.Errorf("ORDER: a shot of scenario shop_cart [add, hdr] sent %d requests", len(l))
 			}
 			u, ok := uidOf(l[0].URI, "/add/")
 			if !ok || l[0].Method != "PUT" {
@@ -546,6 +546,18 @@ func (r *run) checkNames() error {
 			}
 		default:
 			return fmt.Errorf("HARNESS: unknown scenario %q", name)
+		}
+	}
+	// one sample per executed step, tagged with the name of its own scenario and its step
+	tagWant := map[string][]string{"shop": {"shop.cart_add", "shop.hdr", "shop.use"}, "shop_cart": {"shop_cart.add", "shop_cart.hdr"}}
+	tags := map[[2]int][]string{}
+	for _, sm := range w.Samples {
+		k := [2]int{sm.Inst, sm.Shot}
+		tags[k] = append(tags[k], sm.Tag)
+	}
+	for k, name := range scen {
+		if fmt.Sprint(tags[k]) != fmt.Sprint(tagWant[name]) {
+			return fmt.Errorf("TAG: the samples of a shot of scenario %s are tagged %v, scenario.step gives %v", name, tags[k], tagWant[name])
 		}
 	}
 	if d := cnt["shop"] - cnt["shop_cart"]; c.Shots%2 == 0 && d != 0 {
@@ -909,7 +921,7 @@ func TestWorker(t *testing.T) {
 		if !spec.Mine(ci) || (spec.Only != "" && !strings.Contains(c.Name(), spec.Only)) {
 			continue
 		}
-		if spec.Property == "C10" && (c.Mode != "exec" || len(c.Program) > 2 || c.MinWait != 0) {
+		if spec.Property == "C10" && c.Mode != "names" && (c.Mode != "exec" || len(c.Program) > 2 || c.MinWait != 0) {
 			continue // C10 part: one sample per executed step, tagged scenario.step, status or failure
 		}
 		if out.OverBudget() {
